@@ -281,7 +281,15 @@ def replay_corpus(prop, mod, report):
         sub = subs.get(item["sub"])
         if sub is None or sub.fn is None:
             continue
-        v = execute_case(prop, sub, item["case"], report)
+        # cases write their scratch files relative to the working directory: never into /verif
+        _cwd = os.getcwd()
+        _tmp = tempfile.mkdtemp(prefix="vf_replay_", dir=os.environ.get("VF_SCRATCH"))
+        os.chdir(_tmp)
+        try:
+            v = execute_case(prop, sub, item["case"], report)
+        finally:
+            os.chdir(_cwd)
+            shutil.rmtree(_tmp, ignore_errors=True)
         if v is not None:
             v["from_corpus"] = fn
             report.violations.append(v)
@@ -346,12 +354,18 @@ def main(argv=None):
             item = json.load(f)
         sub = [s for s in mod.SUBS if s.name == item["sub"]][0]
         rep = Report()
+        replay_path = os.path.abspath(args.replay)
+        _tmp = tempfile.mkdtemp(prefix="vf_replay_", dir=os.environ.get("VF_SCRATCH"))
+        os.chdir(_tmp)
         try:
             v = execute_case(prop, sub, item["case"], rep)
         except BaseException as e:  # noqa
+            os.chdir(VERIF)
             print("HARNESS-ERROR property=%s replay raised %r" % (prop, e))
             traceback.print_exc()
             return 2
+        os.chdir(VERIF)
+        shutil.rmtree(_tmp, ignore_errors=True)
         for kid in rep.known:
             print("KNOWN-FINDING: property=%s %s (%s)" % (prop, findings.by_id(kid)["what"], kid))
         if v is not None:
